@@ -1,5 +1,6 @@
 import Driver.Util
 import Faithful.Lib.Ledger
+import Faithful.Lib.ParsersCbor
 open Drv Ledger
 
 /-! model side of the C11 line protocol: one answer line per op line.
@@ -69,7 +70,7 @@ def fastRes (k : Kind) (b : Bytes) : Res :=
   match Cbor.decodeFirst b with
   | none => .err
   | some (v, _) =>
-    match Fast.decodeLimited k v with
+    match FastFixed.decodeLimited k v with
     | .ok n => .ok (obs n)
     | .err _ => .err
     | .panic _ => .panic
@@ -112,7 +113,7 @@ def longlist (k : Kind) (n : Nat) (c : Cid) : String :=
   | some node =>
     if !decide node.WF then "not-wf" else
     let v := Ref.encode node
-    let f : Res := match Fast.decodeLimited k v with | .ok m => .ok (obs m) | .err _ => .err | .panic _ => .panic
+    let f : Res := match FastFixed.decodeLimited k v with | .ok m => .ok (obs m) | .err _ => .err | .panic _ => .panic
     let c : Res := match Ref.decode k v with | .ok m => .ok (obs m) | .error _ => .err
     match f, c with
     | .ok a, .ok b => if a = obs node ∧ b = obs node then "accepted-by-both" else "observations-differ"
